@@ -155,7 +155,12 @@ let run_parse (f : string list) : (string * string) option =
     Some (m, spec)
   | _ -> None
 
-let run (f : string list) : string * string =
+let rec run (f : string list) : string * string =
+  match f with
+  | k :: rest when String.length k > 4 && String.sub k (String.length k - 4) 4 = "@grp" ->
+    (* the same case under a digit-grouping global locale: protocol syntax does not depend on it *)
+    run (String.sub k 0 (String.length k - 4) :: rest)
+  | _ ->
   match f with "proto" :: _ -> Driver_proto.run f | "app" :: _ -> Driver_proto.run_app f | _ ->
   match run_parse f with Some r -> r | None ->
   match run_ascii f with Some r -> r | None ->
